@@ -143,11 +143,9 @@ class PureEval(object):
 
     @staticmethod
     def _load(target):
-        t = copy.deepcopy(target)
-        for n in ast.walk(t):
-            if hasattr(n, "ctx"):
-                n.ctx = ast.Load()
-        return t
+        # a fresh node (the analysed trees carry parent links: deep-copying one node would
+        # copy the whole module)
+        return ast.parse(ast.unparse(target), mode="eval").body
 
     def assign(self, t, v, env):
         if isinstance(t, ast.Name):
